@@ -211,7 +211,10 @@ class Engine:
             in_lib, fn = exc_origin(exc)
             if not in_lib:
                 raise
-            rec.fail(f"{self.prop}.op-raises", op=kind, cls=op.get("cls", ""), attr=f"{type(exc).__name__}@{fn}", detail=f"{op} -> {op['raised']}")
+            stale = self.stale_reuse and (op.get("target") in self.stale_reuse or op.get("uid") in self.stale_reuse)
+            # an operation on an identifier that was re-used while the node of a parent-route removal was still stored acts on
+            # that node after a re-open (open finding of C06): what goes wrong there is attributed to it
+            rec.fail(f"{self.prop}.op-raises", op=kind, cls=op.get("cls", ""), attr="stale-node-of-parent-removal" if stale else f"{type(exc).__name__}@{fn}", detail=f"{op} -> {op['raised']}")
             self.aborted = op
         finally:
             if thresholds is not None:
